@@ -66,6 +66,10 @@ def upper_triangular_matrix_to_full_matrix(arr, n):
     triu0 = np.triu_indices(n, 0)
     tril1 = np.tril_indices(n, -1)
 
+    # A single value would otherwise be broadcast silently to the whole upper triangle
+    if np.size(arr) != len(triu0[0]):
+        raise ValueError("Expected {} upper triangular entries for a {}x{} matrix, got {}".format(len(triu0[0]), n, n, np.size(arr)))
+
     mat = np.zeros((n, n), dtype=np.float64)
     mat[triu0] = arr
     mat[tril1] = mat.T[tril1]
